@@ -80,22 +80,36 @@ Definition blocked_spec (M W Wl : list name) (q : name) : Prop :=
   (In q M \/ exists p, strict_parent p q /\ p <> [] /\ (In p M \/ In p W)) /\
   ~ (exists a, (a = q \/ (strict_parent a q /\ a <> [])) /\ In a Wl).
 
-(* rendering a name whose labels need no escaping *)
-Definition render (n : name) : str :=
-  match n with
-  | [] => [c_dot]
-  | _ => flat_map (fun l => l ++ [c_dot]) n
-  end.
+(* ---- presentation form.  [render_with esc] writes every byte of every label
+   through [esc] and ends each label with a dot; the root is ".". *)
+Definition label_with (esc : N -> str) (l : label) : str := flat_map esc l.
+Definition render'_with (esc : N -> str) (n : name) : str :=
+  flat_map (fun l => label_with esc l ++ [c_dot]) n.
+Definition render_with (esc : N -> str) (n : name) : str :=
+  match n with [] => [c_dot] | _ => render'_with esc n end.
 (* the key under which the wildcard entry for suffix p is stored *)
-Definition render_suffix (n : name) : str :=
-  match n with
-  | [] => []
-  | _ => render n
-  end.
+Definition render_suffix_with (esc : N -> str) (n : name) : str :=
+  match n with [] => [] | _ => render_with esc n end.
 
-(* labels that are written as they are: non-empty, no dot, no backslash *)
-Definition plain_char (c : N) : bool := negb (c =? c_dot) && negb (c =? c_bs).
-Definition plain_label (l : label) : bool := nonempty l && forallb plain_char l.
-Definition plain_name (n : name) : bool := forallb plain_label n.
-Definition lower_label (l : label) : bool := forallb (fun c => negb ((65 <=? c) && (c <=? 90))) l.
-Definition lower_name (n : name) : bool := forallb lower_label n.
+(* dns.UnpackDomainName (miekg v1.1.72): isDomainNameLabelSpecial bytes get a
+   backslash, bytes outside ' '..'~' are written \DDD *)
+Definition is_special (c : N) : bool :=
+  (c =? 46) || (c =? 32) || (c =? 39) || (c =? 64) || (c =? 59) || (c =? 40) || (c =? 41) || (c =? 34) || (c =? 92).
+Definition esc_byte (c : N) : str :=
+  if is_special c then [c_bs; c]
+  else if (c <? 32) || (126 <? c) then [c_bs; 48 + c / 100; 48 + (c / 10) mod 10; 48 + c mod 10]
+  else [c].
+Definition present : name -> str := render_with esc_byte.
+Definition present_suffix : name -> str := render_suffix_with esc_byte.
+
+(* names as they exist on the wire: labels are non-empty byte strings *)
+Definition wire_label (l : label) : bool := nonempty l && forallb (fun c => c <? 256) l.
+Definition wire_name (n : name) : bool := forallb wire_label n.
+
+(* undecoded: the labels as written, without case folding *)
+Definition raw_name_of (s : str) : name :=
+  match s with
+  | [] => []
+  | [c] => if c =? c_dot then [] else parse_pres s []
+  | _ => parse_pres s []
+  end.
